@@ -57,6 +57,8 @@ class PgEnv(Env):
         return super()._deref(M, st, th, ci, a)
 
     def t_PartialEq__eq(s, M, st, th, ci, a):
+        r0 = super().t_PartialEq__eq(M, st, th, ci, a)
+        if r0 is not None: return r0
         x, y = a
         try:
             tx = sterm(M, st, M.deref(st, x) if isinstance(x, Ref) and isinstance(M.deref(st, x), Ref) else x)
